@@ -246,6 +246,7 @@ def run(ctx):
     runtime_sized_allocations_checked(ctx)
     keyword_matching_polarity(ctx)
     unchecked_extractor_needs_const_ok(ctx)
+    guarded_overload_does_not_end_the_dispatch(ctx)
 
 
 def _canon_arm(db, f, stmts, label):
@@ -604,3 +605,54 @@ def unchecked_extractor_needs_const_ok(ctx):
         ctx.ob("R02.10", "write_function_instance|DtoolInstance_GetPointer#%d|behind-const_ok" % i, ok, f.loc(x),
                "the constness-blind extractor is %semitted only where const_ok holds" % ("" if ok else "NOT "))
     ctx.floor("R02.10", "emissions of DtoolInstance_GetPointer in write_function_instance", len(lits), 1)
+
+
+def guarded_overload_does_not_end_the_dispatch(ctx):
+    """R02.11: write_function_forset() tries the overloads with the same number of arguments one after the other.  When
+    the code written for one of them returns on every path, the rest is dead and is left out (`caught_all`), together
+    with the final "bad arguments" return.  That is only true of code written UNconditionally: an overload written inside
+    `if (!DtoolInstance_IS_CONST(self)) {` is skipped at run time for a const object, which must then reach the next
+    (const) overload.  (Seed S8-C02: the guard around `caught_all = true` dropped in the first loop; `cv[1]` on a const
+    wrapper fell off the end of the slot function.)"""
+    db = ctx.db
+    ctx.rule("R02.11", "in write_function_forset, inside a loop that writes an overload under a run-time `if (` chosen by a local flag L, the outer dead-code flag is set true only where L is false")
+    fs = [g for g in db.functions if g.name == "InterfaceMakerPythonNative::write_function_forset"]
+    if not fs:
+        ctx.broken("R02.11: write_function_forset not found")
+        return
+    f = fs[0]
+    n = 0
+    for lp in f.walk():
+        if lp.get("k") not in ("while", "for", "forrange"):
+            continue
+        body = list(walk(lp.get("body") or {}))
+        if any(y is not lp and y.get("k") in ("while", "for", "forrange") and any(z.get("k") == "str" and (z.get("v") or "").lstrip().startswith("if (") for z in walk(y)) for y in body):
+            continue        # judge the innermost loop that does the writing
+        inner_decls = {}
+        for y in body:
+            if y.get("k") == "decls":
+                for dd in y["d"]:
+                    if dd.get("ct") == "bool":
+                        inner_decls[dd["d"]] = dd.get("n")
+        guards = {}
+        for y in body:
+            if y.get("k") == "str" and (y.get("v") or "").lstrip().startswith("if ("):
+                for d, nm in inner_decls.items():
+                    e = G.edges_where(f, G.local_true(d))
+                    if e and G.gated(f, y, e):
+                        guards[d] = nm
+        if not guards:
+            continue
+        for y in body:
+            t = assigned_target(y)
+            r = local_ref(t[0]) if t else None
+            if r is None or r.get("d") in inner_decls or const_int(t[1]) != 1 or r.get("t") not in ("bool", "_Bool"):
+                continue
+            for d, nm in guards.items():
+                n += 1
+                e = G.edges_where(f, lambda atom, truth, d=d: (not truth) and (local_ref(atom) or {}).get("d") == d)
+                ok = bool(e) and G.gated(f, y, e)
+                ctx.ob("R02.11", "write_function_forset|%s=true#%d|only-for-unguarded-overloads" % (r.get("n"), n), ok, f.loc(y),
+                       "`%s = true` is behind `!%s`" % (r.get("n"), nm) if ok else
+                       "`%s = true` can be reached with `%s` true: an overload written under a run-time `if` ends the dispatch" % (r.get("n"), nm))
+    ctx.floor("R02.11", "dead-code flags set in loops that write guarded overloads", n, 2)
